@@ -3,6 +3,7 @@ package rules
 import (
 	"fmt"
 	"go/token"
+	"go/types"
 	"os"
 	"sort"
 	"strings"
@@ -65,6 +66,7 @@ func DocFlow(w *load.World, c *core.Collector) {
 	changeNotSkipped(w, c)
 	oneTransaction(w, c)
 	mergeRemovalKeyed(w, c)
+	errorNotSkipped(w, c)
 	props := []string{"C01", "C02"}
 	n := 0
 	for _, f := range w.Fns {
@@ -76,6 +78,7 @@ func DocFlow(w *load.World, c *core.Collector) {
 			continue
 		}
 		var setPoint, delPoint, getPoint *ssa.Call
+		var delHelper *removalHelper
 		for _, b := range f.Blocks {
 			for _, in := range b.Instrs {
 				call, ok := in.(*ssa.Call)
@@ -93,6 +96,11 @@ func DocFlow(w *load.World, c *core.Collector) {
 					delPoint = call
 				case "shard/pointstore.GetPointByUUID", "shard/pointstore.GetPointByNodeId":
 					getPoint = call
+				default:
+					// a helper that looks a point up and deletes it, handing back what was stored
+					if h := pointRemovalHelper(g); h != nil {
+						delPoint, getPoint, delHelper = call, call, h
+					}
 				}
 			}
 		}
@@ -159,7 +167,15 @@ func DocFlow(w *load.World, c *core.Collector) {
 			}
 		}
 		if delPoint != nil {
-			delID := originSet(ssax.Resolve(delPoint.Call.Args[2]))
+			var delID map[string]ssax.Origin
+			if delHelper != nil {
+				// the helper deletes the node id of the point it returns (checked inside the helper)
+				if ex := resultValue(delPoint, 0); ex != nil && delHelper.deletesReturned {
+					delID = originSet([]ssax.Origin{{Val: ex, Path: []string{"NodeId"}}})
+				}
+			} else {
+				delID = originSet(ssax.Resolve(delPoint.Call.Args[2]))
+			}
 			if sameOrigins(delID, nodeID) {
 				c.Add("DOCFLOW", "node-id:"+fk, core.OK, w.At(delPoint), originNames(delID), "C01", "C10")
 			} else {
@@ -174,8 +190,8 @@ func DocFlow(w *load.World, c *core.Collector) {
 		}
 		// ---- skip discipline: a change is dropped (skip == true) only for an id the store does not know,
 		// and never after the point store has been changed
-		notFound := []ssax.Edge{}
-		for _, b := range f.Blocks {
+		notFound := notFoundEdges(f, delHelper, delPoint)
+		for _, b := range f.Blocks[:0] {
 			ifi, ok := b.Instrs[len(b.Instrs)-1].(*ssa.If)
 			if !ok {
 				continue
@@ -245,6 +261,9 @@ func DocFlow(w *load.World, c *core.Collector) {
 				c.Add("DOCFLOW", key, core.Violation, w.At(ret), "the closure can drop a change (skip) on a path that is not the \"point does not exist\" branch: a stored point is treated like an unknown id — it is not reported as processed and the indexes never hear of the change", props...)
 			}
 			for _, st := range []*ssa.Call{setPoint, delPoint} {
+				if st != nil && st == delPoint && delHelper != nil && delHelper.foundResult >= 0 && onlyViaAny(notFound, b) {
+					continue // the helper found nothing, so it deleted nothing
+				}
 				if st != nil && ssax.Reaches(st.Block(), b) && (st.Block() != b || true) && canReachInstr(st, ret) {
 					c.Add("DOCFLOW", "no-skip-after-store:"+fk, core.Violation, w.At(ret), "the point store is changed and the change is then dropped (skip) instead of being handed to the index dispatcher: the indexes keep describing the old document", props...)
 				}
@@ -537,4 +556,140 @@ func idLookupComplete(w *load.World, c *core.Collector) {
 	} else {
 		c.Add("DOCFLOW", "id-lookup-complete", core.OK, w.Position(f.Pos()), "", props...)
 	}
+}
+
+// notFoundEdges: the branch edges of f taken exactly when the point store said "point does not
+// exist": comparisons of an error with ErrPointDoesNotExist (also errors.Is), and tests of the
+// found result of a removal helper (via, at call site).
+func notFoundEdges(f *ssa.Function, via *removalHelper, at *ssa.Call) []ssax.Edge {
+	var notFound []ssax.Edge
+	isNF := func(v ssa.Value) bool {
+		u, ok := v.(*ssa.UnOp)
+		if !ok {
+			return false
+		}
+		g, ok := u.X.(*ssa.Global)
+		return ok && g.Name() == "ErrPointDoesNotExist"
+	}
+	for _, b := range f.Blocks {
+		ifi, ok := b.Instrs[len(b.Instrs)-1].(*ssa.If)
+		if !ok {
+			continue
+		}
+		cond, neg := ifi.Cond, false
+		if u, ok := cond.(*ssa.UnOp); ok && u.Op == token.NOT {
+			cond, neg = u.X, true
+		}
+		if call, ok := cond.(*ssa.Call); ok {
+			if g := call.Call.StaticCallee(); g != nil && g.String() == "errors.Is" && len(call.Call.Args) == 2 && isNF(call.Call.Args[1]) {
+				e := 0
+				if neg {
+					e = 1
+				}
+				notFound = append(notFound, ssax.Edge{From: b, Succ: e})
+				continue
+			}
+		}
+		if via != nil && via.foundResult >= 0 && at != nil {
+			if ex, ok := cond.(*ssa.Extract); ok && ex.Tuple == ssa.Value(at) && ex.Index == via.foundResult {
+				// found is false: the point was not there (or the helper failed, and then the error is returned)
+				e := 1
+				if neg {
+					e = 0
+				}
+				notFound = append(notFound, ssax.Edge{From: b, Succ: e})
+				continue
+			}
+		}
+		bo, ok := ifi.Cond.(*ssa.BinOp)
+		if !ok || (bo.Op != token.EQL && bo.Op != token.NEQ) {
+			continue
+		}
+		if isNF(bo.X) || isNF(bo.Y) {
+			e := 0
+			if bo.Op == token.NEQ {
+				e = 1
+			}
+			notFound = append(notFound, ssax.Edge{From: b, Succ: e})
+		}
+	}
+	return notFound
+}
+
+// removalHelper describes a point store helper that looks a point up, deletes it and returns
+// what was stored: (ShardPoint, found bool, error) or (ShardPoint, error).
+type removalHelper struct {
+	fn              *ssa.Function
+	get, del        *ssa.Call
+	deletesReturned bool // the node id it deletes is the node id of the point it returns
+	foundResult     int  // index of a bool result that is false, with a nil error, only when the point does not exist; -1 if none
+}
+
+var removalHelpers = map[*ssa.Function]*removalHelper{}
+
+func pointRemovalHelper(g *ssa.Function) *removalHelper {
+	if h, ok := removalHelpers[g]; ok {
+		return h
+	}
+	removalHelpers[g] = nil
+	if !ssax.InModule(g) || len(g.Blocks) == 0 || !strings.Contains(load.PkgPath(g), "/shard") {
+		return nil
+	}
+	res := g.Signature.Results()
+	if res.Len() < 2 || ssax.TypeName(res.At(0).Type()) != "pointstore.ShardPoint" {
+		return nil
+	}
+	h := &removalHelper{fn: g, foundResult: -1}
+	for _, b := range g.Blocks {
+		for _, in := range b.Instrs {
+			call, ok := in.(*ssa.Call)
+			if !ok || call.Call.StaticCallee() == nil {
+				continue
+			}
+			switch load.FnKey(call.Call.StaticCallee()) {
+			case "shard/pointstore.DeletePoint":
+				h.del = call
+			case "shard/pointstore.GetPointByUUID", "shard/pointstore.GetPointByNodeId":
+				h.get = call
+			}
+		}
+	}
+	if h.del == nil || h.get == nil {
+		return nil
+	}
+	errIdx := res.Len() - 1
+	nf := notFoundEdges(g, nil, nil)
+	// what is returned on success, and the found flag
+	retID := map[string]ssax.Origin{}
+	foundOK := res.Len() == 3 && types.Identical(res.At(1).Type().Underlying(), types.Typ[types.Bool])
+	for _, b := range g.Blocks {
+		ret, ok := b.Instrs[len(b.Instrs)-1].(*ssa.Return)
+		if !ok {
+			continue
+		}
+		if nonNilError(ssax.ReturnOperand(ret, errIdx), b) {
+			continue
+		}
+		if res.Len() == 3 {
+			fv, isC := ssax.ConstBool(ssax.ReturnOperand(ret, 1))
+			switch {
+			case !isC:
+				foundOK = false
+			case !fv:
+				if !onlyViaAny(nf, b) {
+					foundOK = false
+				}
+				continue // nothing was found: the returned point is the zero value
+			}
+		}
+		for k, o := range originSet(ssax.ResolveField(ret.Results[0], "NodeId")) {
+			retID[k] = o
+		}
+	}
+	if foundOK {
+		h.foundResult = 1
+	}
+	h.deletesReturned = sameOrigins(originSet(ssax.Resolve(h.del.Call.Args[2])), retID)
+	removalHelpers[g] = h
+	return h
 }
